@@ -8,6 +8,7 @@ pub mod p20;
 pub mod pcli;
 pub mod pexpr;
 pub mod pglob;
+pub mod pnum;
 pub mod pregex;
 pub mod pwalk;
 
@@ -37,6 +38,7 @@ pub fn get(name: &str) -> Option<Box<dyn Prop>> {
         "C11o" => Some(Box::new(pcli::PCli::default())),
         "C12" => Some(Box::new(pglob::PGlob::default())),
         "C17" => Some(Box::new(pregex::PRegex::default())),
+        "C14" => Some(Box::new(pnum::PNum::default())),
         "C04" => Some(Box::new(p04::P04::default())),
         "C05" => Some(Box::new(p05::P05::default())),
         "C19" => Some(Box::new(p19::P19::default())),
